@@ -236,10 +236,10 @@ CLAIMED.update({
                  'an order-2 bond of the returned molecule (C15_refs), a node stores exactly the annotations starting at it, '
                  'the slash marks are removed and nothing else changes, chirality labels sit on the copy of the atom they were '
                  'written on and the renumbering keeps the order inside a fragment; the class is the geometric one whenever the '
-                 'second substituent follows its atom (C15_ez_geometric) and the opposite otherwise (C15_ez_E1 = finding E1). '
+                 'second substituent follows its atom (C15_ez_geometric) and the opposite otherwise (C15_ez_E1 = finding E1). Finding E3 (a marked atom that is the removed copy of a shared pair) is exhibited on the model by C15_E3_witness, its mechanism proved for every molecule by C15_E3_marks_not_transferred (a contraction hands over memberships only). '
                  'Tied to the code by exact correspondence of the whole resolution incl. the annotation tuples on generated '
                  'stereo molecules cut at double/single bonds in every fragment order, plus a geometric ground-truth oracle.'),
-        'note': ('partial: independence of the class from the fragment order is false today (known finding E1, witness theorem '
+        'note': ('partial: independence of the class from the fragment order is false today (known findings E1 and E3, witness theorems C15_E3_witness and '
                  'C15_E1_witness); pysmiles token table modelled external; `@`-style rs_isomer tuples are outside the property.'),
         'design': '§7 C15',
     },
